@@ -40,7 +40,7 @@ func (t Term) Key() string {
 		return t.Name
 	}
 	if t.Lit == '\'' {
-		return `'\''`
+		return `'\'` // yaccgo's own spelling of the quote character (its lexer takes exactly this form)
 	}
 	return "'" + string(t.Lit) + "'"
 }
